@@ -140,13 +140,13 @@ def gen_units(rng, family):
     return units, edges, caps
 
 
-ODD_NAMES = ["", "0", " ", "a b", "{}", "%s", "None", "False"]
+ODD_NAMES = ["", "0", " ", "a b", "{}", "%s", "None", "False", "I$", "D$", "L1$data", "${state}", "$state", "$$"]
 
 
 def odd_names(rng, units, caps):
     """now and then a unit (or a capability) gets an unusual but legal name — the empty string, "0", a blank … — renamed
     consistently, so the structure is unchanged (seeded change C05-9: a flag carrying a unit name was tested for truth)"""
-    if rng.random() < 0.07:
+    if rng.random() < 0.1:
         u = rng.choice(sorted(units))
         new = rng.choice(ODD_NAMES)
         if all(d["name"].lower() != new.lower() for d in units.values()):
